@@ -487,6 +487,11 @@ pub fn contexts() -> Vec<Context> {
         ("(□)(□')\\2\\1", cat(vec![grp(h0()), grp(h1()), Node::Backref(2), Node::Backref(1)])),
         ("(?=(□))\\1", cat(vec![la(grp(h0())), Node::Backref(1)])),
         ("(?:(□)|x)\\1?", cat(vec![alt(vec![grp(h0()), x()]), opt(Node::Backref(1))])),
+        // self-referential back-references (unscoped: used by C05/C07/C09 only)
+        ("(?:(\\1?□)□')+", plus(cat(vec![grp(cat(vec![opt(Node::Backref(1)), h0()])), h1()]))),
+        ("(?:(\\1□|□)□')*", star(cat(vec![grp(alt(vec![cat(vec![Node::Backref(1), h0()]), h0()])), h1()]))),
+        ("(?:(?=(\\1?□))□')+", plus(cat(vec![la(grp(cat(vec![opt(Node::Backref(1)), h0()]))), h1()]))),
+        ("(?:(□\\1*)□')+", plus(cat(vec![grp(cat(vec![h0(), star(Node::Backref(1))])), h1()]))),
         // conditionals
         ("(□)?(?(1)a|b)", cat(vec![opt(grp(h0())), condg(1, x(), y())])),
         ("(□)(?(1)□'|x)", cat(vec![grp(h0()), condg(1, h1(), x())])),
